@@ -54,6 +54,7 @@ var c18Seeds = []string{
 	`mapscripts ( global ) Map { TYPE_A : Scr TYPE_B { lock release } TYPE_C [ VAR_A , 1 : Scr VAR_B + 1 , 2 { x } ] }`,
 	`raw ` + "`r w`" + ` const K = 5 const J = K + 1 script S { x ( K , J ) applymovement ( 1 , moves ( a * 2 , b ) ) msgbox ( format ( "t" ) ) }`,
 	`script S { poryswitch ( V ) { A : x B { y z } _ : w } } text T { poryswitch ( V ) { A : "a" _ { "b" } } } movement M { poryswitch ( V ) { A : up _ { down * 2 } } } mart Mt { poryswitch ( V ) { A : I1 _ { I2 I3 } } }`,
+	`const K = 5 const J = K + 1 const G = I1 I2 mart Mt { I0 J G ITEM_NONE } movement M { J G } text T { "J" } script S { J ( J , G ) J : goto ( J ) if ( flag ( J ) && var ( G ) == J ) { switch ( var ( J ) ) { case J : x case G : y } } } mapscripts Mp { J : S G [ J , G : S ] }`,
 	`script S { if ( flag ( A ) ) { if ( var ( B ) < 2 ) { switch ( var ( C ) ) { case 1 : while ( flag ( D ) ) { x ( ( 1 + 2 ) , "t" ) break } } } } }`,
 }
 
